@@ -9,6 +9,12 @@ operations.  Observable = the directory listing with file contents after every o
 Correspondence: the same operations through Model/Rotate.lean.
 Monitors: the property statement evaluated on the real directory contents against the write
 history (independent of the model).
+
+The clear / reopen clause is additionally exercised through the real fan-out (props/c19_world.py): activity
+loggers built by the real ServerOptions.make_logger() in every configuration, real ProcessGroup / Subprocess /
+dispatchers over real pipes, the real clearLog / clearProcessLogs / clearAllProcessLogs RPC methods, SIGUSR2
+through the real signal receiver and Supervisor.handle_signal(); one monitor per log; the same histories
+through Model/LogFan.lean, which interprets the loop bodies regenerated from the source.
 """
 import io, os, re, sys, tempfile
 from framework import Infra
@@ -24,6 +30,14 @@ TRUSTED = [
     "disk-full and permission errors; SyslogHandler; BoundIO (C08)",
     "the handlers are driven directly and behind a real POutputDispatcher (stdout and stderr logs, with and without capture, removelogs/reopenlogs in both modes); which bytes the dispatcher hands to the normal log (tag matching, hold-back) is C07/C08's subject: here the calls of normallog.info are observed at the logger seam and only checked to be a prefix of the output outside capture sections; the capture log itself is an in-memory BoundIO (C08), not a file; a whole daemon run with a forked child is not part of this check",
 ]
+TRUSTED.append(
+    "the clear / reopen fan-out (clearLog, ServerOptions.reopenlogs, SIGUSR2, clearProcessLogs, clearAllProcessLogs) is "
+    "modelled from the regenerated loop bodies (flattened guarded statements, early exits included) and driven through the "
+    "real ServerOptions.make_logger(), ProcessGroup, Subprocess, make_dispatchers (real pipes), Supervisor.handle_signal and "
+    "SupervisorNamespaceRPCInterface; not modelled there: name resolution and priority ordering of clearAllProcessLogs "
+    "(_getGroupAndProcess, _getAllProcesses: monitors only), the text of the 'received SIGUSR2' message (taken from the "
+    "observation), SyslogHandler; LogRecord's clock is frozen (supervisor.loggers.time) so that activity-log lines are "
+    "reproducible")
 ASSUMPTIONS = [
     "one handler per log file (supervisor never opens two handlers on the same path)",
     "external actors only unlink or atomically replace whole files between two handler operations",
@@ -32,7 +46,13 @@ RULE = ("cases = (rotating?, maxbytes, backups, op sequence); maxbytes in {0,1,2
         "write sizes 0, 1, maxbytes-1, maxbytes, maxbytes+1, 2*maxbytes(+1) and small random; four op mixes: writes only, "
         "+reopen, +clear, +external remove/replace of any name index 0..backups+1; a fifth population drives dispatchers with capture enabled (chunks with BEGIN/END tags; clear, reopen and external removal/replacement both in ordinary mode and inside a capture section; the model is fed the bytes the dispatcher hands to the normal log); about 30% of the random cases go through a real POutputDispatcher (child stdout/stderr log); payload bytes are a running counter so that "
         "file contents identify their place in the history; non-trivial = at least one rollover or clear or external op happened; "
-        "distinct = distinct (config, op list)")
+        "distinct = distinct (config, op list); a sixth population are *worlds*: activity logger from the real make_logger() "
+        "(daemon / nodaemon / silent x plain / rotating / rotating without backups x level INFO / DEBG, optionally a handler without "
+        "reopen() in front or behind) plus 0-3 real processes in 1-3 groups (programs and event listeners; stdout / stderr logs plain, "
+        "rotating, absent, stderr redirected), histories of activity messages, child output, clearLog, clearProcessLogs, "
+        "clearAllProcessLogs, SIGUSR2, ServerOptions.reopenlogs and external removal / replacement of any log, every clear / reopen "
+        "followed by further writes to every affected log; corpus: every make_logger configuration x (clearLog | SIGUSR2 | "
+        "reopenlogs after the file was moved away) followed by five messages")
 
 FMT_TEXT = '%(levelname)s %(message)s\n'
 
@@ -823,9 +843,16 @@ def replay(ctx, data):
 # ---- MANIFEST metadata -----------------------------------------------------------------------
 TECHNIQUE = ("Lean 4 invariants by induction over operation sequences on a model of FileHandler/RotatingFileHandler over an "
              "abstract file system whose comparisons, loop bounds, name-index arithmetic, errno tests and open modes are "
-             "regenerated from loggers.py; differential correspondence against the real handlers in a scratch directory")
+             "regenerated from loggers.py; the clear / reopen fan-out (handler lists, dispatchers, processes, groups) as an interpreter of "
+             "the loop bodies regenerated from rpcinterface.py / options.py / process.py / supervisord.py / dispatchers.py, with theorems "
+             "for all handler lists and all worlds that rest on the extracted fact that the loops have no early exit; differential "
+             "correspondence against the real handlers in a scratch directory and against real loggers / processes / RPC methods")
 LEVEL_TEXT = ("files_bounded, suffix_no_gap, segments_ordered (all five operation kinds), backups_full, live_short, backups0_truncates, maxbytes0_never and "
-              "clear_reopen_safe are proved for every operation sequence, every maxbytes/backups and every payload; the model is "
+              "clear_reopen_safe are proved for every operation sequence, every maxbytes/backups and every payload; "
+              "clearLog_every_file_handler_fresh / write_after_clearLog_at_path (every handler list, every configuration), "
+              "clearLog_every_configuration (every make_logger configuration after any message history), "
+              "reopenlogs_every_file_handler_bound, sigusr2_reaches_every_log and clearProcessLogs_reaches_every_log (every world) "
+              "are proved from the regenerated loop bodies; the model is "
               "run against the real handlers on a regression corpus, all short write sequences around maxbytes and random "
               "interleavings with clears, reopens and external removals/replacements")
 LEVEL_NOTE = "trusts Lean's kernel, extract.py, the abstract file system (unlink/rename/open semantics); see DESIGN.md C19"
